@@ -433,7 +433,9 @@ Scalar MASA::sod_1d<Scalar>::rtbis(Scalar x1,Scalar x2,Scalar xacc,int JMAX)
       xmid=myval+dx;
       fmid=func(xmid);
       if(fmid <= 0.) myval=xmid;
-      if(abs(dx) < xacc || abs(fmid) < thresh) 
+      if(abs(fmid) < thresh)
+	return(xmid);
+      if(abs(dx) < xacc)
 	return(myval);
     }
   
